@@ -79,7 +79,8 @@ Settled(t, S) ==
 (* An answer that the replica may have given from a look at its local store without going  *)
 (* through the log (SETNX on an existing key answers 0, LPOP / RPOP on an empty list nil)    *)
 (* says nothing about what has been persisted: it confirms no earlier answer.                *)
-Confirms(op, res) == ~(res = 0 /\ op.t \in {"setnx", "lpop", "rpop"})
+Confirms(op, res) == /\ ~(res = 0 /\ op.t \in {"setnx", "lpop", "rpop"})
+                     /\ op.t \notin {"get", "hget", "llen"}      \* reads are local as well
 
 (* weak: the answer to an operation that went through the log confirms every operation that *)
 (* had been answered before this one was invoked (their Ready was persisted before this one  *)
